@@ -133,6 +133,12 @@ std::unique_ptr<Mesh> Mesh::render(
     if (settings.progress_handler) {
         settings.progress_handler->finish();
     }
+
+    // If the render was cancelled during index assignment or the dual walk,
+    // then the mesh is only partially built: return nothing instead.
+    if (settings.cancel.load()) {
+        out.reset();
+    }
     return out;
 }
 
